@@ -152,4 +152,187 @@ mutual
       | panic w => simp [convertProps, hp] at h
 end
 
+/-! ## `Document.addMethod` (`internal/export/swagger.go`): operations grouped by path
+
+`dd.Paths` is a list of path items, a path item a list of operations; `PathItem.MapKey()` is the
+path of its first operation (`""` when empty). A method's operation is appended to the first path
+item whose key equals the method's path, else a new path item is appended. `PathSet` and
+`PathItem` are rendered by `OrderedMap.MarshalJSON` as JSON objects keyed by `MapKey()`, in list
+order: `{"<path>": {"<verb>": …, …}, …}`. Paths are byte strings (`List Nat`), verbs the lower-case
+method names. -/
+
+structure SOp where
+  verb : String
+  path : List Nat
+  deriving Repr, DecidableEq
+
+abbrev PathItem := List SOp
+
+/-- `PathItem.MapKey()` -/
+def PathItem.key : PathItem → List Nat
+  | [] => []
+  | op :: _ => op.path
+
+/-- the loop at the end of `addMethod` -/
+def addOp : List PathItem → SOp → List PathItem
+  | [], op => [[op]]
+  | item :: rest, op =>
+    if PathItem.key item = op.path then (item ++ [op]) :: rest else item :: addOp rest op
+
+/-- `BuildSwagger`'s `doc.addService` loop over every method of every declared service -/
+def groupOps (ops : List SOp) : List PathItem := ops.foldl addOp []
+
+/-- every path item is non-empty and holds only operations of its own path; no two path items
+have the same key -/
+structure PathsInv (items : List PathItem) : Prop where
+  nonempty : ∀ item ∈ items, item ≠ []
+  same : ∀ item ∈ items, ∀ op ∈ item, op.path = PathItem.key item
+  nodup : (items.map PathItem.key).Nodup
+
+theorem PathItem.key_append (item : PathItem) (op : SOp) (h : item ≠ []) :
+    PathItem.key (item ++ [op]) = PathItem.key item := by
+  cases item with
+  | nil => exact absurd rfl h
+  | cons a rest => rfl
+
+theorem addOp_keys (items : List PathItem) (op : SOp) (hne : ∀ item ∈ items, item ≠ []) :
+    ∀ k ∈ (addOp items op).map PathItem.key, k ∈ items.map PathItem.key ∨ k = op.path := by
+  induction items with
+  | nil => intro k hk; simp [addOp, PathItem.key] at hk; exact Or.inr hk
+  | cons item rest ih =>
+    intro k hk
+    unfold addOp at hk
+    split at hk
+    · simp only [List.map_cons, List.mem_cons] at hk ⊢
+      rcases hk with e | e
+      · rw [PathItem.key_append item op (hne item (by simp))] at e; exact Or.inl (Or.inl e)
+      · exact Or.inl (Or.inr e)
+    · simp only [List.map_cons, List.mem_cons] at hk ⊢
+      rcases hk with e | e
+      · exact Or.inl (Or.inl e)
+      · rcases ih (fun i hi => hne i (List.mem_cons_of_mem _ hi)) k e with h | h
+        · exact Or.inl (Or.inr h)
+        · exact Or.inr h
+
+theorem addOp_inv (items : List PathItem) (op : SOp) (h : PathsInv items) : PathsInv (addOp items op) := by
+  induction items with
+  | nil =>
+    refine ⟨?_, ?_, ?_⟩
+    · intro item hi; simp [addOp] at hi; subst hi; simp
+    · intro item hi o ho; simp [addOp] at hi; subst hi; simp at ho; subst ho; rfl
+    · simp [addOp]
+  | cons item rest ih =>
+    have hrest : PathsInv rest := ⟨fun i hi => h.nonempty i (List.mem_cons_of_mem _ hi),
+      fun i hi => h.same i (List.mem_cons_of_mem _ hi), (List.nodup_cons.mp h.nodup).2⟩
+    have hne := h.nonempty item (by simp)
+    unfold addOp
+    split
+    · rename_i hk
+      refine ⟨?_, ?_, ?_⟩
+      · intro i hi
+        rcases List.mem_cons.mp hi with e | e
+        · subst e; simp
+        · exact h.nonempty i (List.mem_cons_of_mem _ e)
+      · intro i hi o ho
+        rcases List.mem_cons.mp hi with e | e
+        · subst e
+          rw [PathItem.key_append item op hne]
+          rcases List.mem_append.mp ho with ho | ho
+          · exact h.same item (by simp) o ho
+          · simp at ho; subst ho; exact hk.symm
+        · exact h.same i (List.mem_cons_of_mem _ e) o ho
+      · simp only [List.map_cons, PathItem.key_append item op hne]
+        exact h.nodup
+    · rename_i hk
+      have ih' := ih hrest
+      refine ⟨?_, ?_, ?_⟩
+      · intro i hi
+        rcases List.mem_cons.mp hi with e | e
+        · subst e; exact hne
+        · exact ih'.nonempty i e
+      · intro i hi o ho
+        rcases List.mem_cons.mp hi with e | e
+        · subst e; exact h.same _ (by simp) o ho
+        · exact ih'.same i e o ho
+      · simp only [List.map_cons]
+        refine List.nodup_cons.mpr ⟨?_, ih'.nodup⟩
+        intro hm
+        rcases addOp_keys rest op hrest.nonempty _ hm with h1 | h1
+        · exact (List.nodup_cons.mp h.nodup).1 h1
+        · exact hk h1
+
+theorem addOp_mem (items : List PathItem) (op : SOp) (hne : ∀ item ∈ items, item ≠ []) :
+    ∃ item ∈ addOp items op, PathItem.key item = op.path ∧ op ∈ item := by
+  induction items with
+  | nil => exact ⟨[op], by simp [addOp], rfl, by simp⟩
+  | cons item rest ih =>
+    unfold addOp
+    split
+    · rename_i hk
+      exact ⟨item ++ [op], by simp, by rw [PathItem.key_append item op (hne item (by simp))]; exact hk, by simp⟩
+    · obtain ⟨i, hi, hk, ho⟩ := ih (fun i hi => hne i (List.mem_cons_of_mem _ hi))
+      exact ⟨i, List.mem_cons_of_mem _ hi, hk, ho⟩
+
+/-- an operation that is in the document stays in it, under the same key -/
+theorem addOp_keeps (items : List PathItem) (op o : SOp) (hne : ∀ item ∈ items, item ≠ [])
+    (h : ∃ item ∈ items, PathItem.key item = o.path ∧ o ∈ item) :
+    ∃ item ∈ addOp items op, PathItem.key item = o.path ∧ o ∈ item := by
+  induction items with
+  | nil => obtain ⟨i, hi, _⟩ := h; simp at hi
+  | cons item rest ih =>
+    obtain ⟨i, hi, hk, ho⟩ := h
+    unfold addOp
+    split
+    · rcases List.mem_cons.mp hi with e | e
+      · subst e
+        exact ⟨i ++ [op], by simp, by rw [PathItem.key_append i op (hne i (by simp))]; exact hk, by simp [ho]⟩
+      · exact ⟨i, by simp [e], hk, ho⟩
+    · rcases List.mem_cons.mp hi with e | e
+      · subst e; exact ⟨i, by simp, hk, ho⟩
+      · obtain ⟨j, hj, hjk, hjo⟩ := ih (fun i hi => hne i (List.mem_cons_of_mem _ hi)) ⟨i, e, hk, ho⟩
+        exact ⟨j, List.mem_cons_of_mem _ hj, hjk, hjo⟩
+
+theorem addOp_flatten_perm (items : List PathItem) (op : SOp) :
+    (addOp items op).flatten.Perm (items.flatten ++ [op]) := by
+  induction items with
+  | nil => simp [addOp]
+  | cons item rest ih =>
+    unfold addOp
+    split
+    · simp only [List.flatten_cons, List.append_assoc]
+      apply List.Perm.append_left
+      exact List.perm_append_comm
+    · simp only [List.flatten_cons, List.append_assoc]
+      exact List.Perm.append_left _ ih
+
+theorem foldl_addOp_spec (ops : List SOp) : ∀ (items : List PathItem), PathsInv items →
+    PathsInv (ops.foldl addOp items)
+    ∧ (∀ o, (∃ item ∈ items, PathItem.key item = o.path ∧ o ∈ item) ∨ o ∈ ops →
+        ∃ item ∈ ops.foldl addOp items, PathItem.key item = o.path ∧ o ∈ item)
+    ∧ (ops.foldl addOp items).flatten.Perm (items.flatten ++ ops) := by
+  induction ops with
+  | nil =>
+    intro items h
+    refine ⟨h, ?_, by simp⟩
+    intro o ho
+    rcases ho with ho | ho
+    · exact ho
+    · simp at ho
+  | cons op ops ih =>
+    intro items h
+    obtain ⟨h1, h2, h3⟩ := ih (addOp items op) (addOp_inv items op h)
+    refine ⟨h1, ?_, ?_⟩
+    · intro o ho
+      apply h2
+      rcases ho with ho | ho
+      · exact Or.inl (addOp_keeps items op o h.nonempty ho)
+      · rcases List.mem_cons.mp ho with e | e
+        · subst e; exact Or.inl (addOp_mem items o h.nonempty)
+        · exact Or.inr e
+    · simp only [List.foldl_cons]
+      refine h3.trans ?_
+      have := (addOp_flatten_perm items op).append_right ops
+      refine this.trans ?_
+      simp
+
 end J5V.Pipe
